@@ -10,9 +10,8 @@ import numpy as np
 
 import pennylane as qp
 
-from . import bridge, lib, rel, tapeeval
-from .codec import KNOWN, OffLattice, encode_op, rec
-from .lib import ring_to_complex
+from . import bridge, lib, rel
+from .codec import OffLattice, encode_op, rec
 
 
 class Skip(Exception):
